@@ -40,6 +40,17 @@ func TestVerifN2HGet(t *testing.T) {
 	hist := map[string]int{}
 	clean := []string{"/p?d=%s", "/p?x=50%%25&d=%s", "/a/b?k=v&d=%s&z=1", "/put/%s", "/put/%s?k=v", "/p?d=%s&e=100%%", "/%%41?d=%s"} // no '#': the fragment of the endpoint string is never sent
 	unclean := []string{"/p?d=%s&pct=100%", "/a%20b?d=%s", "/p?x=50%25&d=%s", "/p?d=%%s", "/p?n=%d&d=%s", "/p?d=%s&w=%5d", "/p?d=%s%"}
+	for _, l := range vfKnownLines("get-template-stray-percent") { // committed replay: template=<tmpl> …
+		if f := strings.Fields(l); len(f) > 0 && strings.HasPrefix(f[0], "template=") {
+			tm, dup := strings.TrimPrefix(f[0], "template="), false
+			for _, u := range unclean {
+				dup = dup || u == tm
+			}
+			if !dup {
+				unclean = append(unclean, tm)
+			}
+		}
+	}
 	all := make([]byte, 256)
 	for i := range all {
 		all[i] = byte(i)
